@@ -323,6 +323,21 @@ func DischargeArith(ff *FuncFacts, nonZero func(term string) (bool, string)) []A
 			} else {
 				v.Why = "signed operand " + t.Of(s.X) + " of an unsigned conversion is not proven non-negative"
 			}
+		case "uwrap":
+			if ff.ProveGE(b, Const(0), t.Affine(s.X), 0) {
+				v.OK, v.Why = true, "the other operand is proven zero"
+			} else {
+				v.Why = s.Desc + ": the result wraps around whenever " + t.Of(s.X) + " is not zero, and every bound proven about it afterwards is about the wrapped value"
+			}
+		case "sconv":
+			cv := s.Instr.(*ssa.Convert)
+			hi := ff.ProveGE(b, Const(convMax(cv.Type())), t.Affine(s.X), 0)
+			lo := isUnsigned(cv.X.Type()) || ff.ProveGE(b, t.Affine(s.X), Const(-convMax(cv.Type())-1), 0)
+			if hi && lo {
+				v.OK, v.Why = true, "operand proven within the range of the result type"
+			} else {
+				v.Why = "a decision depends on " + s.Desc + " and " + t.Of(s.X) + " is not proven to fit the result type (the conversion can change the value)"
+			}
 		case "makesize":
 			if ff.ProveGE(b, t.Affine(s.X), Const(0), 0) {
 				v.OK, v.Why = true, "size proven non-negative"
